@@ -11,6 +11,7 @@ import OsacaVerif.Driver.C16
 import OsacaVerif.Driver.C19
 import OsacaVerif.Driver.C09
 import OsacaVerif.Driver.C10
+import OsacaVerif.Driver.C07
 open OsacaVerif OsacaVerif.Proto
 
 /-- one handler per property module; the first that recognises the op answers -/
@@ -26,7 +27,8 @@ def handlers : List (Req → Option String) := [
   Driver.C16.handle,
   Driver.C19.handle,
   Driver.C09.handle,
-  Driver.C10.handle
+  Driver.C10.handle,
+  Driver.C07.handle
 ]
 
 def dispatch (r : Req) : String :=
